@@ -332,34 +332,34 @@ theorem lift_err {x : Except DecErr α} {b : Bits} {e : DecErr} (h : Rd.lift x b
 theorem remaining_ok {b b' : Bits} {r : Nat} (h : remaining b = .ok (r, b')) : r = b.rest.length ∧ b' = b := by
   unfold remaining at h; simp at h; exact ⟨h.1.symm, h.2.symm⟩
 
-theorem readPal_ok {np : Nat} {o : Outer} {b b' : Bits} {pal : Pal}
-    (h : (if (np == 1) = true then
-            (get 5).bind fun dirofs => (get 5).bind fun ps => (get 3).bind fun pb =>
-              (getPalette (pb + 2) (if ps > 0 then ps + 1 else 0)).bind fun palette =>
-                Rd.pure { directOffset := dirofs, palsize := if ps > 0 then ps + 1 else 0, palbits := pb + 2, palette := palette }
-          else Rd.pure o.pal) b = .ok (pal, b')) : Adv b b' 0 := by
-  split at h
-  · simp only [bind_ok, pure_ok] at h
-    obtain ⟨_, b1, h1, _, b2, h2, _, b3, h3, _, b4, h4, _, rfl⟩ := h
-    exact ((((get_ok h1).trans (get_ok h2)).trans (get_ok h3)).trans (getPalette_ok _ _ _ _ _ h4)).weaken (by omega)
-  · simp only [pure_ok] at h
-    obtain ⟨_, rfl⟩ := h; exact Adv.refl _
+theorem readSliceHeader_ok {b b' : Bits} {r : Nat × Nat × Bool × Bool}
+    (h : readSliceHeader b = .ok (r, b')) : Adv b b' 20 := by
+  simp only [readSliceHeader, bind_eq, pure_eq, bind_ok, pure_ok] at h
+  obtain ⟨_, b1, h1, _, b2, h2, _, b3, h3, _, b4, h4, _, rfl⟩ := h
+  exact (((get_ok h1).trans (get_ok h2)).trans (get_ok h3)).trans (get_ok h4)
 
-theorem readPal_err {np : Nat} {o : Outer} {b : Bits} {e : DecErr}
-    (h : (if (np == 1) = true then
-            (get 5).bind fun dirofs => (get 5).bind fun ps => (get 3).bind fun pb =>
-              (getPalette (pb + 2) (if ps > 0 then ps + 1 else 0)).bind fun palette =>
-                Rd.pure { directOffset := dirofs, palsize := if ps > 0 then ps + 1 else 0, palbits := pb + 2, palette := palette }
-          else Rd.pure o.pal) b = .error e) : e = .underrun := by
-  split at h
-  · simp only [bind_err, pure_err] at h
-    rcases h with h | ⟨_, _, _, h | ⟨_, _, _, h | ⟨_, _, _, h | ⟨_, _, _, h⟩⟩⟩⟩
-    · exact get_err h
-    · exact get_err h
-    · exact get_err h
-    · exact getPalette_err _ _ _ _ h
-    · exact h.elim
-  · simp [pure_err] at h
+theorem readSliceHeader_err {b : Bits} {e : DecErr} (h : readSliceHeader b = .error e) : e = .underrun := by
+  simp only [readSliceHeader, bind_eq, pure_eq, bind_err, pure_err] at h
+  rcases h with h | ⟨_, _, _, h | ⟨_, _, _, h | ⟨_, _, _, h | ⟨_, _, _, h⟩⟩⟩⟩
+  · exact get_err h
+  · exact get_err h
+  · exact get_err h
+  · exact get_err h
+  · exact h.elim
+
+theorem readPalette_ok {b b' : Bits} {pal : Pal} (h : readPalette b = .ok (pal, b')) : Adv b b' 13 := by
+  simp only [readPalette, bind_eq, pure_eq, bind_ok, pure_ok] at h
+  obtain ⟨_, b1, h1, _, b2, h2, _, b3, h3, _, b4, h4, _, rfl⟩ := h
+  exact ((((get_ok h1).trans (get_ok h2)).trans (get_ok h3)).trans (getPalette_ok _ _ _ _ _ h4)).weaken (by omega)
+
+theorem readPalette_err {b : Bits} {e : DecErr} (h : readPalette b = .error e) : e = .underrun := by
+  simp only [readPalette, bind_eq, pure_eq, bind_err, pure_err] at h
+  rcases h with h | ⟨_, _, _, h | ⟨_, _, _, h | ⟨_, _, _, h | ⟨_, _, _, h⟩⟩⟩⟩
+  · exact get_err h
+  · exact get_err h
+  · exact get_err h
+  · exact getPalette_err _ _ _ _ h
+  · exact h.elim
 
 theorem sliceBody_ok {zdiv : Nat} {o o' : Outer} {b b' : Bits}
     (h : sliceBody zdiv o b = .ok (o', b')) : Adv b b' 0 := by
@@ -367,13 +367,18 @@ theorem sliceBody_ok {zdiv : Nat} {o o' : Outer} {b b' : Bits}
   split at h
   · simp [Rd.fail] at h
   simp only [bind_ok] at h
-  obtain ⟨n, b1, h1, wdiv, b2, h2, t, b3, h3, np, b4, h4, h⟩ := h
+  obtain ⟨⟨n, wdiv, t, np⟩, b4, h4, h⟩ := h
+  simp only at h
   split at h
   · simp [Rd.fail] at h
   split at h
   · simp [Rd.fail] at h
   simp only [bind_ok] at h
   obtain ⟨pal, b5, h5, h⟩ := h
+  have a5 : Adv b4 b5 0 := by
+    split at h5
+    · exact (readPalette_ok h5).weaken (by omega)
+    · simp only [pure_ok] at h5; obtain ⟨_, rfl⟩ := h5; exact Adv.refl _
   split at h
   · simp [Rd.fail] at h
   simp only [bind_ok] at h
@@ -383,7 +388,7 @@ theorem sliceBody_ok {zdiv : Nat} {o o' : Outer} {b b' : Bits}
   simp only [pure_ok] at h
   obtain ⟨out, b8, h8, _, rfl⟩ := h
   obtain ⟨_, rfl⟩ := lift_ok h8
-  exact ((((((get_ok h1).trans (get_ok h2)).trans (get_ok h3)).trans (get_ok h4)).trans (readPal_ok h5)).trans a7).weaken (by omega)
+  exact (((readSliceHeader_ok h4).trans a5).trans a7).weaken (by omega)
 
 theorem sliceBody_err {zdiv : Nat} {o : Outer} {b : Bits} {e : DecErr}
     (h : sliceBody zdiv o b = .error e) : e ≠ .fuel := by
@@ -391,18 +396,18 @@ theorem sliceBody_err {zdiv : Nat} {o : Outer} {b : Bits} {e : DecErr}
   split at h
   · simp [Rd.fail] at h; subst h; simp
   simp only [bind_err] at h
-  rcases h with h | ⟨n, b1, h1, h | ⟨wdiv, b2, h2, h | ⟨t, b3, h3, h | ⟨np, b4, h4, h⟩⟩⟩⟩
-  · rw [get_err h]; simp
-  · rw [get_err h]; simp
-  · rw [get_err h]; simp
-  · rw [get_err h]; simp
+  rcases h with h | ⟨⟨n, wdiv, t, np⟩, b4, h4, h⟩
+  · rw [readSliceHeader_err h]; simp
+  simp only at h
   split at h
   · simp [Rd.fail] at h; subst h; simp
   split at h
   · simp [Rd.fail] at h; subst h; simp
   simp only [bind_err] at h
   rcases h with h | ⟨pal, b5, h5, h⟩
-  · rw [readPal_err h]; simp
+  · split at h
+    · rw [readPalette_err h]; simp
+    · simp [pure_err] at h
   split at h
   · simp [Rd.fail] at h; subst h; simp
   simp only [bind_err] at h
@@ -414,6 +419,7 @@ theorem sliceBody_err {zdiv : Nat} {o : Outer} {b : Bits} {e : DecErr}
     rcases h with h | ⟨_, _, _, h⟩
     · exact emitSlice_err (lift_err h)
     · exact h.elim
+
 theorem atEnd_ok {b b' : Bits} {r : Bool} (h : atEnd b = .ok (r, b')) : b' = b := by
   unfold atEnd at h; simp at h; exact h.2.symm
 theorem bitPos_ok {b b' : Bits} {r : Nat} (h : bitPos b = .ok (r, b')) : b' = b := by
